@@ -56,3 +56,158 @@ theorem hexEncode_chars (a : List Nat) (ha : ∀ x ∈ a, x < 256) :
     · exact ih (fun z hz => ha z (by simp [hz])) ch h
 
 end Mcp.Ids
+
+/-!
+  ## JSON-RPC ids as pending-table keys (C01, C05) — add-only extension
+
+  Go renders an id held in an `interface{}` with `fmt.Sprintf("%v", id)`:
+  * an `int64` prints as its decimal digits (`strconv.FormatInt`);
+  * a `float64` prints as `%g` with the shortest digits that round-trip, and switches to exponent form iff the decimal
+    exponent is `< -4` or `>= 6` — measured on the real runtime: `999999 ↦ "999999"`, `1000000 ↦ "1e+06"`,
+    `1234567 ↦ "1.234567e+06"`, `2147483648 ↦ "2.147483648e+09"`, `9007199254740992 ↦ "9.007199254740992e+15"`.
+  A JSON number decoded into an `interface{}` is always a `float64`.  For an integer `|n| ≤ 2^53` the float is exact and
+  its shortest digits are the decimal digits of `n` without trailing zeros (any shorter decimal is a multiple of ten and
+  so a different integer, and neighbouring floats are at least 1 apart up to `2^53`).
+-/
+namespace Mcp.Ids
+open Mcp.Str
+
+/-- decimal digits of `n` without trailing zeros (`"1200000" ↦ "12"`). -/
+def stripZeros (ds : Text) : Text := (ds.reverse.dropWhile (· == 48)).reverse
+
+/-- exponent part after `e+`: at least two digits. -/
+def expText (e : Nat) : Text := if e < 10 then 48 :: natDigits e else natDigits e
+
+/-- `%e`-shaped shortest rendering of a float64 holding the positive integer `n ≤ 2^53`: `d[.ddd]e+XX`. -/
+def sciText (n : Nat) : Text :=
+  let ds := natDigits n
+  (match stripZeros ds with
+   | [] => [48]
+   | [d] => [d]
+   | d :: rest => d :: 46 :: rest) ++ (101 :: 43 :: expText (ds.length - 1))
+
+/-- `fmt.Sprintf("%v", float64(n))` for a natural `n ≤ 2^53`. -/
+def fmtVFloatNat (n : Nat) : Text := if n < 1000000 then natDigits n else sciText n
+
+/-- `fmt.Sprintf("%v", float64(i))` for an integer `|i| ≤ 2^53`. -/
+def fmtVFloatInt : Int → Text
+  | .ofNat n => fmtVFloatNat n
+  | .negSucc n => 45 :: fmtVFloatNat (n + 1)
+
+/-- `fmt.Sprintf("%v", int64(i))`. -/
+def fmtVInt (i : Int) : Text := intText i
+
+/-- least `e' ≥ e` with `n / 2^e' < 2^53` (fuel-bounded). -/
+def dropBits : Nat → Nat → Nat → Nat
+  | 0, _, e => e
+  | f + 1, n, e => if n / 2 ^ e < 2 ^ 53 then e else dropBits f n (e + 1)
+
+/-- The float64 nearest to the natural number `n` (round to nearest, ties to even, 53-bit significand), as a natural
+    number.  Domain `n < 2^1024` (above that Go's decoder refuses the number). -/
+def f64OfNat (n : Nat) : Nat :=
+  let e := dropBits 1100 n 0
+  if e = 0 then n else
+    let q := n / 2 ^ e
+    let r := n % 2 ^ e
+    let half := 2 ^ (e - 1)
+    (if r > half ∨ (r = half ∧ q % 2 = 1) then q + 1 else q) * 2 ^ e
+
+def f64OfInt : Int → Int
+  | .ofNat n => .ofNat (f64OfNat n)
+  | .negSucc n => - (Int.ofNat (f64OfNat (n + 1)))
+
+/-- Go `int64(f)` of a float64 holding the integer `v` (amd64: out of range gives `math.MinInt64`; measured). -/
+def i64OfF64 (v : Int) : Int := if -(2 ^ 63 : Int) ≤ v ∧ v < 2 ^ 63 then v else -(2 ^ 63 : Int)
+
+/-- Go `uint64(f)` of a float64 holding the integer `v` (amd64; measured: `-1 ↦ 2^64-1`, `1e30 ↦ 2^63`). -/
+def u64OfF64 (v : Int) : Int :=
+  if 0 ≤ v ∧ v < 2 ^ 64 then v
+  else if -(2 ^ 63 : Int) ≤ v ∧ v < 0 then 2 ^ 64 + v
+  else 2 ^ 63
+
+/-- Go `uint64(i)` of an `int64`. -/
+def u64OfI64 (i : Int) : Int := if 0 ≤ i then i else 2 ^ 64 + i
+
+/-! ### lemmas -/
+
+def valOf (t : Text) : Nat := t.foldl (fun a d => a * 10 + (d - 48)) 0
+
+theorem digitsAux_append (f n : Nat) (acc : Text) : digitsAux f n acc = digitsAux f n [] ++ acc := by
+  induction f generalizing n acc with
+  | zero => simp [digitsAux]
+  | succ f ih =>
+    simp only [digitsAux]
+    split
+    · simp
+    · rw [ih (n / 10) ((48 + n % 10) :: acc), ih (n / 10) [48 + n % 10]]; simp
+
+theorem valOf_digitsAux (f n : Nat) (h : n < f) : valOf (digitsAux f n []) = n := by
+  induction f generalizing n with
+  | zero => omega
+  | succ f ih =>
+    simp only [digitsAux]
+    split
+    · simp [valOf]
+    · rename_i h10
+      rw [digitsAux_append]
+      have := ih (n / 10) (by omega)
+      simp only [valOf, List.foldl_append, List.foldl_cons, List.foldl_nil] at this ⊢
+      rw [this]; omega
+
+theorem valOf_natDigits (n : Nat) : valOf (natDigits n) = n := valOf_digitsAux (n + 1) n (by omega)
+
+/-- decimal rendering is injective: two different counter values never share a `%v` key. -/
+theorem natDigits_inj {a b : Nat} (h : natDigits a = natDigits b) : a = b := by
+  have := congrArg valOf h
+  simpa [valOf_natDigits] using this
+
+theorem digitsAux_chars (f n : Nat) (acc : Text) (hacc : ∀ c ∈ acc, 48 ≤ c ∧ c ≤ 57) :
+    ∀ c ∈ digitsAux f n acc, 48 ≤ c ∧ c ≤ 57 := by
+  induction f generalizing n acc with
+  | zero => simpa [digitsAux] using hacc
+  | succ f ih =>
+    simp only [digitsAux]
+    split
+    · intro c hc
+      simp only [List.mem_cons] at hc
+      rcases hc with hc | hc
+      · omega
+      · exact hacc c hc
+    · apply ih
+      intro c hc
+      simp only [List.mem_cons] at hc
+      rcases hc with hc | hc
+      · have := Nat.mod_lt n (show 10 > 0 by omega); omega
+      · exact hacc c hc
+
+theorem natDigits_chars (n : Nat) : ∀ c ∈ natDigits n, 48 ≤ c ∧ c ≤ 57 :=
+  digitsAux_chars (n + 1) n [] (by simp)
+
+theorem sciText_has_e (n : Nat) : 101 ∈ sciText n := by
+  simp [sciText]
+
+theorem fmtVFloatNat_small {n : Nat} (h : n < 1000000) : fmtVFloatNat n = natDigits n := by
+  simp [fmtVFloatNat, h]
+
+/-- from one million on the float rendering is in exponent form and can never equal a decimal rendering. -/
+theorem fmtVFloatNat_large_ne {n : Nat} (h : 1000000 ≤ n) (c : Nat) : fmtVFloatNat n ≠ natDigits c := by
+  intro he
+  have h1 : fmtVFloatNat n = sciText n := by simp [fmtVFloatNat]; omega
+  have h2 : 101 ∈ natDigits c := by rw [← he, h1]; exact sciText_has_e n
+  have := natDigits_chars c 101 h2
+  omega
+
+/-- key agreement implies the same number: a float-rendered id equals an int-rendered id only for the same integer. -/
+theorem fmtV_sound {a c : Nat} (h : fmtVFloatNat a = natDigits c) : a = c := by
+  by_cases ha : a < 1000000
+  · rw [fmtVFloatNat_small ha] at h; exact natDigits_inj h
+  · exact absurd h (fmtVFloatNat_large_ne (by omega) c)
+
+theorem dropBits_zero {n : Nat} (h : n < 2 ^ 53) : dropBits 1100 n 0 = 0 := by
+  show dropBits (1099 + 1) n 0 = 0
+  simp [dropBits, h]
+
+theorem f64OfNat_small {n : Nat} (h : n < 2 ^ 53) : f64OfNat n = n := by
+  simp [f64OfNat, dropBits_zero h]
+
+end Mcp.Ids
